@@ -1,6 +1,12 @@
 import sys; sys.path.insert(0,'/verif')
 from engine import spec, verify, run
 run.load_contracts()
+import os, importlib.util
+if os.environ.get('VERIF_DEV'):
+    # contracts under development, kept outside contracts/ until they verify (a check may be running)
+    for f in os.environ['VERIF_DEV'].split(':'):
+        sp = importlib.util.spec_from_file_location('dev_' + os.path.basename(f)[:-3], f)
+        m = importlib.util.module_from_spec(sp); sp.loader.exec_module(m)
 pat=sys.argv[1] if len(sys.argv)>1 else ''
 allo = len(sys.argv)>2
 for k in spec.ORDER:
